@@ -53,4 +53,18 @@ CHECKS = {
               "time/run_command, gen_program (assumed behaviour), save_stats, and C14's analyze_compiler_output; sys.exit under "
               "--debug is abrupt termination"),
         design='DESIGN.md section 4 (C15)'),
+    'C06': dict(
+        level='proof',
+        technique='deductive verification by rule justification: every return-True path of is_subtype / _is_type_arg_contained / get_supertypes / is_assignable is derived from Horn rules of the declarative relation (z3, E-matching); bounded exhaustive comparison with an executable least fixpoint for exactness',
+        text=("Soundness (first sentence of C06) is proved for all class tables and all valid types: Builtin / SimpleClassifier / "
+              "TypeParameter / WildCardType / ParameterizedType / NothingType (4 modules) / Function.is_subtype, "
+              "_is_type_arg_contained (all 12 containment cases), get_supertypes (closure), Type.is_assignable and the 13 Java/"
+              "Groovy boxed-numeric is_assignable overrides (result implies Sub or the JLS widening table), not_related. A reversed "
+              "variance, a skipped type argument, an ignored bound or a name-based constructor comparison leaves a return-True "
+              "path without an applicable rule. Exactness / reflexivity / transitivity / bottom on ground class types is NOT "
+              "proved: bounded exhaustive comparison on a 155-type universe."),
+        note=("trusted: Horn rules are the declarative relation; PyEq (__eq__) as type identity; Valid(t) well-formedness as "
+              "precondition; same-constructor-same-arity; TypeConstructor.is_subtype, ParameterizedType.is_assignable and the "
+              "__eq__ overrides not under contract; TypeParameter.has_bound_of trusted"),
+        design='DESIGN.md section 4 (C06)'),
 }
